@@ -2,7 +2,7 @@
 From Coq Require Import ZArith List Bool Reals Floats.SpecFloat.
 From Flocq Require Import Core.Zaux Core.Raux Core.Defs Core.Generic_fmt Core.FLT Core.Round_NE IEEE754.BinarySingleNaN.
 From Rscel Require Import Base.Prims Base.F64 Base.Text Model.Value Model.Lexer Model.Ast Model.Parser.
-From Rscel Require Import Proofs.Literals Proofs.FloatLit Proofs.StrLit.
+From Rscel Require Import Proofs.Literals Proofs.FloatLit Proofs.StrLit Proofs.Conv Proofs.LexInt.
 Import ListNotations.
 Open Scope Z_scope.
 
@@ -122,3 +122,11 @@ Example C13_examples :
   option_map (map t_tok) (match lex [46; 49] with LOk l _ => Some l | _ => None end)
     = Some [TFloatLit (S754_finite false 7205759403792794 (-56))].
 Proof. vm_compute. repeat split. Qed.
+
+(** from source text to token list: the decimal spelling of n alone in a source lexes to the one
+    integer token n, spanning the whole text *)
+Theorem C13_lex_decimal_source : forall n, 0 <= n -> in_u64 n = true ->
+  exists s', lex (dec_of_nonneg n) =
+    LOk [mkTok (TIntLit n) (mkRange (mkLoc 0 0) (mkLoc 0 (Z.of_nat (length (dec_of_nonneg n)))))] s'.
+Proof. exact lex_decimal_source. Qed.
+Print Assumptions C13_lex_decimal_source.
